@@ -38,7 +38,7 @@ structure WriterRule where
   deriving DecidableEq, Repr
 
 /-- the code in /repo today: flip when the patches are applied -/
-def currentWriterEmitsCodonStart : Bool := false
+def currentWriterEmitsCodonStart : Bool := true    -- F-C12a repaired in /repo (bc2bc66)
 def currentMinusPartsDescending : Bool := false
 def currentWriterRule : WriterRule := ⟨currentWriterEmitsCodonStart, currentMinusPartsDescending⟩
 def WriterRule.repaired : WriterRule := ⟨true, true⟩
@@ -178,15 +178,15 @@ def frameDigit : CDSFrame → Str
 
 /-- `add_cds_feature` -/
 def addCdsFeature (cfg : Cfg) (seq : Option Str) (t : Tx) (txQuals : QDict) (strand : Strand) : R Rec := do
-  let q0 := txQuals
-  let q1 ← (if cfg.updateTranslations then
+  -- (proposed patch for F-C12a) `feature.qualifiers["codon_start"] = [start_frame.value + 1]`, before the translation
+  let q0 := if cfg.rule.emitsCodonStart then
+      dictSet txQuals "codon_start".toList [frameDigit ((Spec.Gb.startFrame t).getD .ZERO)] else txQuals
+  let q2 ← (if cfg.updateTranslations then
       match proteinOf cfg.flavor seq t with
       | .ok p => pure (dictSet q0 "translation".toList [p])
       | .error .ValueError => pure q0
       | .error e => throw e
     else pure q0)
-  let q2 := if cfg.rule.emitsCodonStart then
-      dictSet q1 "codon_start".toList [frameDigit ((Spec.Gb.startFrame t).getD .ZERO)] else q1
   pure { type := "CDS".toList, strand := strand, parts := toBiopythonParts cfg.rule t.strand t.cds, quals := q2 }
 
 /-- feature key of the transcript-level record -/
